@@ -256,12 +256,65 @@ impl Monitor for FirstMon {
     }
 }
 
-fn finish_binding(rep: &Report, c: &mut Counters, what: &str, validated: u64, mism: Vec<String>) {
+/// Returns true when the automaton is NOT bound to the real matcher for this program (some explored
+/// access string is answered differently by `is_match` and by the compiled pattern): the caller
+/// then decides the property for this program by bounded enumeration through the public API.
+fn finish_binding(rep: &Report, c: &mut Counters, what: &str, validated: u64, mism: Vec<String>) -> bool {
     bump(c, "traces_validated_against_impl", validated);
     if !mism.is_empty() {
         bump(c, "binding_mismatches", mism.len() as u64);
-        rep.note(format!("binding mismatch for {}: {}", what, mism[0]));
+        bump(c, "programs_decided_by_bounded_enumeration", 1);
+        rep.note(format!("binding mismatch for {}: {} (decided by bounded enumeration through is_match instead)", what, mism[0]));
+        return true;
     }
+    false
+}
+
+/// All strings over the alphabet up to the largest length L <= 5 with |A|^L <= 300 000 (at least 2).
+fn fallback_paths(alphabet: &[char]) -> Vec<String> {
+    let n = alphabet.len().max(1) as u64;
+    let mut len = 2usize;
+    while len < 5 && n.pow(len as u32 + 1) <= 300_000 {
+        len += 1;
+    }
+    let mut out = vec![String::new()];
+    let mut level = vec![String::new()];
+    for _ in 0..len {
+        let mut next = Vec::with_capacity(level.len() * alphabet.len());
+        for s in &level {
+            for ch in alphabet {
+                let mut t = s.clone();
+                t.push(*ch);
+                next.push(t);
+            }
+        }
+        out.extend(next.iter().cloned());
+        level = next;
+        if out.len() > 400_000 {
+            break;
+        }
+    }
+    out
+}
+
+/// canonical path: no empty component, no `.` component; returns (rooted, components)
+fn canonical_shape(p: &str) -> Option<(bool, usize)> {
+    if p.is_empty() {
+        return Some((false, 0));
+    }
+    if p == "/" {
+        return Some((true, 0));
+    }
+    let rooted = p.starts_with('/');
+    let body = if rooted { &p[1..] } else { p };
+    let mut n = 0;
+    for comp in body.split('/') {
+        if comp.is_empty() || comp == "." {
+            return None;
+        }
+        n += 1;
+    }
+    Some((rooted, n))
 }
 
 // ---------------------------------------------------------------------------------------------
@@ -445,7 +498,26 @@ fn c09_check_program(
     let mon = AncMon { watch: 1, sat: 3 };
     let ex = model::explore_counted(c, &[dfa], &mon, &alphabet);
     let (v, mism) = model::validate_binding(&ex, &[dfa], &[is_match]);
-    finish_binding(rep, c, what, v, mism);
+    if finish_binding(rep, c, what, v, mism) {
+        // bounded decision through the public API: every accepted canonical path and every
+        // canonical path beneath it within the length bound
+        let paths = fallback_paths(&alphabet);
+        let accepted: Vec<&String> = paths.iter().filter(|p| canonical_shape(p).is_some() && is_match(p)).collect();
+        'outer: for p in accepted {
+            for q in &paths {
+                let beneath = if p.is_empty() { !q.is_empty() && !q.starts_with('/') } else if p == "/" { q.len() > 1 && q.starts_with('/') } else { q.len() > p.len() + 1 && q.starts_with(p.as_str()) && q.as_bytes()[p.len()] == b'/' };
+                if beneath && canonical_shape(q).is_some() && !is_match(q) {
+                    rep.alarm(Alarm {
+                        class: None,
+                        key: format!("{} (bounded)", what),
+                        msg: format!("{} reports is_exhaustive()=Always, matches {:?} but not its descendant {:?} (is_match differs from the compiled program; decided by bounded enumeration)", what, p, q),
+                        case: json!({"kind": "exhaustive", "patterns": patterns, "ancestor": p, "path": q}),
+                    });
+                    break 'outer;
+                }
+            }
+        }
+    }
     let mut sound = true;
     let mut seen_classes: Vec<Option<String>> = vec![];
     // the encoder's mirror of this expression, built once, when the first witness needs it
@@ -691,7 +763,25 @@ fn c10_check_program(
     let mon = CanonMon { sat };
     let ex = model::explore_counted(c, &[dfa], &mon, &alphabet);
     let (v, mism) = model::validate_binding(&ex, &[dfa], &[is_match]);
-    finish_binding(rep, c, what, v, mism);
+    if finish_binding(rep, c, what, v, mism) {
+        for p in fallback_paths(&alphabet) {
+            let Some((rooted, n)) = canonical_shape(&p) else { continue };
+            let admissible = match root {
+                When::Always => rooted,
+                When::Never => !rooted,
+                When::Sometimes => true,
+            };
+            if admissible && (n < lo || hi.map_or(false, |h| n > h)) && is_match(&p) && !((p.is_empty() || p == "/") && may_be_empty) {
+                rep.alarm(Alarm {
+                    class: None,
+                    key: format!("{} (bounded)", what),
+                    msg: format!("{} reports depth {:?} but matches {:?} with {} component(s) (is_match differs from the compiled program; decided by bounded enumeration)", what, depth, p, n),
+                    case: json!({"kind": "depth", "patterns": patterns, "path": p}),
+                });
+                break;
+            }
+        }
+    }
     let mut witnesses: Vec<(usize, u8)> = vec![];
     for (i, (t, cs)) in ex.states.iter().enumerate() {
         if !cs.is_canonical_end() || !automata::acc(&[dfa], t, 0) {
@@ -917,7 +1007,27 @@ fn c11_check_program(
     let mon = TextMon { text: extra.clone() };
     let ex = model::explore_counted(c, &[dfa], &mon, &alphabet);
     let (v, mism) = model::validate_binding(&ex, &[dfa], &[is_match]);
-    finish_binding(rep, c, what, v, mism);
+    if finish_binding(rep, c, what, v, mism) {
+        for p in fallback_paths(&alphabet) {
+            if p != text && is_match(&p) {
+                rep.alarm(Alarm {
+                    class: None,
+                    key: format!("{} {:?} (bounded)", what, p),
+                    msg: format!("{} reports invariant text {:?} but also matches {:?} (is_match differs from the compiled program; decided by bounded enumeration)", what, text, p),
+                    case: json!({"kind": "text-other", "patterns": patterns, "text": text, "path": p}),
+                });
+                break;
+            }
+        }
+        if !lists_sep && !is_match(text) {
+            rep.alarm(Alarm {
+                class: None,
+                key: format!("{} self", what),
+                msg: format!("{} reports invariant text {:?} but does not match it", what, text),
+                case: json!({"kind": "text-self", "patterns": patterns, "text": text, "path": text}),
+            });
+        }
+    }
     bump(c, "invariant_checked", 1);
     let mut matched_text = false;
     for (i, (t, pos)) in ex.states.iter().enumerate() {
@@ -1116,7 +1226,19 @@ fn c12_check_root(
     let Ok(alphabet) = automata::alphabet(&[dfa.pattern.as_str()], &[]) else { return };
     let ex = model::explore_counted(c, &[dfa], &FirstMon, &alphabet);
     let (v, mism) = model::validate_binding(&ex, &[dfa], &[is_match]);
-    finish_binding(rep, c, what, v, mism);
+    if finish_binding(rep, c, what, v, mism) {
+        for p in fallback_paths(&alphabet) {
+            if !p.starts_with('/') && is_match(&p) {
+                rep.alarm(Alarm {
+                    class: class.clone(),
+                    key: what.to_string(),
+                    msg: format!("{} reports has_root()=Always but matches {:?} (is_match differs from the compiled program; decided by bounded enumeration)", what, p),
+                    case: json!({"kind": "root", "patterns": patterns, "path": p}),
+                });
+                break;
+            }
+        }
+    }
     bump(c, "rooted_checked", 1);
     for (i, (t, first)) in ex.states.iter().enumerate() {
         if automata::acc(&[dfa], t, 0) && *first != 1 {
